@@ -246,7 +246,10 @@ func (r *Rule) doEvaluate(logger debuglog.Logger, phase types.RulePhase, tx *Tra
 			for _, c := range ecol {
 				if c.Variable == v.Variable {
 					// TODO shall we check the pointer?
-					v.Exceptions = append(v.Exceptions, ruleVariableException{c.KeyStr, c.KeyRx})
+					// v is a copy of the rule's variable, but its Exceptions slice still shares the
+					// rule's backing array: clip the capacity so that append never writes into memory
+					// owned by the rule, which concurrent transactions read.
+					v.Exceptions = append(v.Exceptions[:len(v.Exceptions):len(v.Exceptions)], ruleVariableException{c.KeyStr, c.KeyRx})
 				}
 			}
 
